@@ -30,6 +30,7 @@ PROP = {
         "a gap of exactly T8 is not a timeout (deadline = now+T8, fires only if the next arrival is strictly later) - the simulated conn and the model agree on this reading; real timers are the runtime's",
         "the SECS-II body decoder is abstract in the cell model (any function of the body bytes); the harness feeds the outcome of secs2.Decode on the same bytes as that function's value",
         "sync.Once and the shared decodeState pointer are modelled as one option cell per message family (modelled, not verified: Go memory model)",
+        "DataMessageCodec.UnmarshalBinary (zero-value codec and a codec wrapping a message) is a fifth decode entry point on every decode case: same acceptance and same message as DecodeHSMSMessage (the model's whole-buffer decode), except that a frame decoding to a control message is refused (class C) and a failed call leaves the wrapped message in place",
         "a control frame with a body is well-formed at the decode entry points (property text lists only length, PType, SType); rejecting it is the live responder's job (C08)",
         "local frame writes are not part of the reader model (the model is indifferent to them, like read sizes): scripts carry them as a conn behaviour, and the e2e stall scenarios (with / without local writes) assert the drop no earlier than T8 after the partial frame began and within T8 + 2 s",
         "the e2e pass judges real-time behaviour with wide margins only (idle 2.5 x T8 must not drop; stall 4 x T8 must drop; in-frame gaps are 100x below T8)",
